@@ -78,7 +78,8 @@ def draw_stacking_context(stream, stacking_context):
         # Point 2.
         if isinstance(box, (boxes.BlockBox, boxes.MarginBox,
                             boxes.InlineBlockBox, boxes.TableCellBox,
-                            boxes.FlexContainerBox, boxes.ReplacedBox)):
+                            boxes.FlexContainerBox, boxes.GridContainerBox,
+                            boxes.ReplacedBox)):
             set_mask_border(stream, box)
             # The canvas background was removed by layout_backgrounds
             draw_background(stream, box.background)
